@@ -148,6 +148,16 @@ def run(ctx):
                    ("feed", "f32", "n"), ("nbestiter", "3", "nullobj"), ("end", "", "ok"), ("lattice", "0", "nullobj"), ("nbestiter", "1", "nullobj"),
                    ("lattice", "1", "nullobj"), ("start", "", "ok"), ("feed", "long", "n"), ("end", "", "ok"), ("nbestiter", "3", "nullobj")]
             cases.append(("lattice-starts-%d#%d" % (k, len(cases)), render(ops, c2, data, with_probe=False)))
+        # one decoder switching between streaming and full-utterance calls, int16 and float32, short and long utterances
+        # (each mode sizes the cepstrum ring and the feature buffer in its own way)
+        modes = {"S": "feed gf2 0 60000 i16 0 0", "s": "feed gf 9000 5000 i16 0 0", "F": "feed gf 0 -1 i16 0 1", "f": "feed head 0 -1 i16 0 1",
+                 "X": "feed gf2 0 -1 f32 0 1", "T": "feed gf2 2000 70000 f32 0 0", "B": "feed gf2 0 50000 i16 1 0", "L": "feed silgf 0 -1 i16 0 1"}
+        for k, seq in enumerate(["SFS", "sFS", "SfT", "TFT", "BFB", "SXS", "FSF", "fSFTX", "LSF", "SLT", "sfSFXT"]):
+            body = ["mark __case__"] + list(decmatrix.audio_defs()) + ["init " + decmatrix.hx(json.dumps(cfg)), "jsgf " + decmatrix.hx(JSGF_OK)]
+            for m in seq:
+                body += ["start", modes[m], "end", "result u", "call lattice 1 0", "call nbestiter 1 1"]
+            body.append("free")
+            cases.append(("mode-switch-%s#%d" % (seq, len(cases)), body))
         # results whose words are spelled with bytes that need care when they are formatted (JSON at every level,
         # mid-utterance and at the end, hypothesis string, segment iterator): quotes, backslashes, control and
         # non-ASCII bytes
